@@ -6,7 +6,7 @@ from . import siftcore
 from ..model import AnalysisError, unparse, walk_local
 from ..paths import Evaluator, is_c, show, C, S, subterms
 from ..poly import Poly
-from .common import loop_containing_call, mk_algebra, trace_tail, calls_to
+from .common import loop_containing_call, mk_algebra, trace_tail, calls_to, cmp_views
 
 PROPERTY = 'C03'
 EXPLANATION = (
@@ -629,11 +629,12 @@ def rule_ragged_members(ctx, rid, fi):
                         and any(_is_min_member_cols(a) is not None for a in B[2]):
                     continue        # min(cap, smallest member count)
                 safe = False
-                for c, truth, ln in e.state.conds:
-                    if c[0] == 'cmp' and c[2] == B and _is_min_member_cols(c[3]) is not None:
-                        if (c[1] == '>' and not truth) or (c[1] == '<=' and truth) or (c[1] == '<' and truth) \
-                                or (c[1] == '>=' and not truth) or (c[1] == '==' and truth):
-                            safe = True
+                for c0, truth, ln in e.state.conds:
+                    for op_, l_, r_ in cmp_views(c0):
+                        if l_ == B and _is_min_member_cols(r_) is not None:
+                            if (op_ == '>' and not truth) or (op_ == '<=' and truth) or (op_ == '<' and truth) \
+                                    or (op_ == '>=' and not truth) or (op_ == '==' and truth):
+                                safe = True
                 if not safe:
                     bad = (e, 'bound %s is not limited by the smallest member column count on this path' % show(B)[:60])
         if bad:
